@@ -34,8 +34,20 @@ structure KindOK (kind : Kind) (cmp : K → K → Int) (Good : Tree K V → Prop
   deleteMax : ∀ t, Good t →
     ∃ t', deleteMax kind t = .ok (t', Spec.last t.toList) ∧ Good t' ∧ t'.toList = t.toList.dropLast
 
+/-- abstraction function on table objects: same comparator, same value equality, in-order listing -/
+def absT (t : Table K V) : Spec.Tab K V := ⟨t.cmp, t.eqVal, t.root.toList⟩
+
 /-- abstraction function on states -/
-def abs (s : State K V) : Spec.State K V := (s.1.toList, s.2.1.toList, s.2.2.toList)
+def abs (s : State K V) : Spec.State K V := (absT s.1, absT s.2.1, absT s.2.2)
+
+/-- a table object is good: the comparator it was constructed with is lawful and its tree satisfies the
+invariant of its kind *for that comparator* -/
+def GoodT (Good : (K → K → Int) → Tree K V → Prop) (t : Table K V) : Prop :=
+  LawfulCmp t.cmp ∧ Good t.cmp t.root
+
+/-- all three table objects of a state are good (each for its own comparator) -/
+def GoodS (Good : (K → K → Int) → Tree K V → Prop) (s : State K V) : Prop :=
+  GoodT Good s.1 ∧ GoodT Good s.2.1 ∧ GoodT Good s.2.2
 
 section
 variable {kind : Kind} {cmp : K → K → Int} {Good : Tree K V → Prop}
@@ -101,63 +113,76 @@ theorem partitionMatch_ok (hk : KindOK kind cmp Good) (h : LawfulCmp cmp) (p : K
   · rw [h4]; exact build_perm h _ (hk.inv t ht).1 (listing_perm .vlr (by decide) t)
   · rw [h5]; exact build_perm h _ (hk.inv t ht).1 (listing_perm .vlr (by decide) t)
 
+end
+
+section
+variable {kind : Kind} {Good : (K → K → Int) → Tree K V → Prop}
+
 /-- one call: the Model does not fail, stays good, follows the abstract map, and its result is
-admitted by the abstract map -/
-theorem step_ok (hk : KindOK kind cmp Good) (h : LawfulCmp cmp) (eqVal : V → V → Bool) (s : State K V)
-    (hs : Good s.1 ∧ Good s.2.1 ∧ Good s.2.2) (op : Op K V) :
-    ∃ s' o, step kind cmp eqVal s op = .ok (s', o) ∧ (Good s'.1 ∧ Good s'.2.1 ∧ Good s'.2.2) ∧
-      abs s' = Spec.next cmp (abs s) op ∧ Spec.admits cmp eqVal (abs s) op o := by
-  obtain ⟨s1, s2, s3⟩ := s
-  obtain ⟨g1, g2, g3⟩ := hs
-  have i1 := hk.inv s1 g1
-  have i2 := hk.inv s2 g2
+admitted by the abstract map.  Every table has its own (lawful) comparator and value equality. -/
+theorem step_ok (hk : ∀ cmp : K → K → Int, LawfulCmp cmp → KindOK kind cmp (Good cmp)) (s : State K V)
+    (hs : GoodS Good s) (op : Op K V) :
+    ∃ s' o, step kind s op = .ok (s', o) ∧ GoodS Good s' ∧
+      abs s' = Spec.next (abs s) op ∧ Spec.admits (abs s) op o := by
+  obtain ⟨⟨c1, q1, s1⟩, ⟨c2, q2, s2⟩, ⟨c3, q3, s3⟩⟩ := s
+  obtain ⟨⟨h, g1⟩, ⟨h2, g2⟩, ⟨h3, g3⟩⟩ := hs
+  have hk1 := hk c1 h
+  have i1 := hk1.inv s1 g1
+  have i2 := (hk c2 h2).inv s2 g2
   cases op with
   | put k v =>
-    obtain ⟨t', e, g, l⟩ := hk.put s1 k v g1
-    exact ⟨(t', s2, s3), .unit, by simp [step, e], ⟨g, g2, g3⟩, by simp [abs, Spec.next, l], rfl⟩
+    obtain ⟨t', e, g, l⟩ := hk1.put s1 k v g1
+    exact ⟨(⟨c1, q1, t'⟩, ⟨c2, q2, s2⟩, ⟨c3, q3, s3⟩), .unit, by simp [step, Table.set, e],
+      ⟨⟨h, g⟩, ⟨h2, g2⟩, ⟨h3, g3⟩⟩, by simp [abs, absT, Spec.next, Spec.Tab.set, l], rfl⟩
   | delete k =>
-    obtain ⟨t', e, g, l⟩ := hk.delete s1 k g1
-    exact ⟨(t', s2, s3), .optV (Spec.get cmp k s1.toList), by simp [step, e], ⟨g, g2, g3⟩, by simp [abs, Spec.next, l], rfl⟩
+    obtain ⟨t', e, g, l⟩ := hk1.delete s1 k g1
+    exact ⟨(⟨c1, q1, t'⟩, ⟨c2, q2, s2⟩, ⟨c3, q3, s3⟩), .optV (Spec.get c1 k s1.toList), by simp [step, Table.set, e],
+      ⟨⟨h, g⟩, ⟨h2, g2⟩, ⟨h3, g3⟩⟩, by simp [abs, absT, Spec.next, Spec.Tab.set, l], rfl⟩
   | deleteMin =>
-    obtain ⟨t', e, g, l⟩ := hk.deleteMin s1 g1
-    exact ⟨(t', s2, s3), .optKV (Spec.first s1.toList), by simp [step, e], ⟨g, g2, g3⟩, by simp [abs, Spec.next, l], rfl⟩
+    obtain ⟨t', e, g, l⟩ := hk1.deleteMin s1 g1
+    exact ⟨(⟨c1, q1, t'⟩, ⟨c2, q2, s2⟩, ⟨c3, q3, s3⟩), .optKV (Spec.first s1.toList), by simp [step, Table.set, e],
+      ⟨⟨h, g⟩, ⟨h2, g2⟩, ⟨h3, g3⟩⟩, by simp [abs, absT, Spec.next, Spec.Tab.set, l], rfl⟩
   | deleteMax =>
-    obtain ⟨t', e, g, l⟩ := hk.deleteMax s1 g1
-    exact ⟨(t', s2, s3), .optKV (Spec.last s1.toList), by simp [step, e], ⟨g, g2, g3⟩, by simp [abs, Spec.next, l], rfl⟩
-  | deleteAll => exact ⟨(.nil, s2, s3), .unit, rfl, ⟨hk.good_nil, g2, g3⟩, rfl, rfl⟩
-  | swap => exact ⟨(s2, s1, s3), .unit, rfl, ⟨g2, g1, g3⟩, rfl, rfl⟩
-  | swapC => exact ⟨(s3, s2, s1), .unit, rfl, ⟨g3, g2, g1⟩, rfl, rfl⟩
+    obtain ⟨t', e, g, l⟩ := hk1.deleteMax s1 g1
+    exact ⟨(⟨c1, q1, t'⟩, ⟨c2, q2, s2⟩, ⟨c3, q3, s3⟩), .optKV (Spec.last s1.toList), by simp [step, Table.set, e],
+      ⟨⟨h, g⟩, ⟨h2, g2⟩, ⟨h3, g3⟩⟩, by simp [abs, absT, Spec.next, Spec.Tab.set, l], rfl⟩
+  | deleteAll =>
+    exact ⟨(⟨c1, q1, .nil⟩, ⟨c2, q2, s2⟩, ⟨c3, q3, s3⟩), .unit, rfl, ⟨⟨h, hk1.good_nil⟩, ⟨h2, g2⟩, ⟨h3, g3⟩⟩, rfl, rfl⟩
+  | swap => exact ⟨(⟨c2, q2, s2⟩, ⟨c1, q1, s1⟩, ⟨c3, q3, s3⟩), .unit, rfl, ⟨⟨h2, g2⟩, ⟨h, g1⟩, ⟨h3, g3⟩⟩, rfl, rfl⟩
+  | swapC => exact ⟨(⟨c3, q3, s3⟩, ⟨c2, q2, s2⟩, ⟨c1, q1, s1⟩), .unit, rfl, ⟨⟨h3, g3⟩, ⟨h2, g2⟩, ⟨h, g1⟩⟩, rfl, rfl⟩
   | size =>
-    exact ⟨(s1, s2, s3), _, rfl, ⟨g1, g2, g3⟩, rfl, by simp [Spec.admits, abs, sz_eq_length i1.2]⟩
+    exact ⟨_, _, rfl, ⟨⟨h, g1⟩, ⟨h2, g2⟩, ⟨h3, g3⟩⟩, rfl, by simp [Spec.admits, abs, absT, sz_eq_length i1.2]⟩
   | isEmpty =>
-    exact ⟨(s1, s2, s3), _, rfl, ⟨g1, g2, g3⟩, rfl, by simp [Spec.admits, abs, isNil_iff_toList]⟩
-  | height => exact ⟨(s1, s2, s3), _, rfl, ⟨g1, g2, g3⟩, rfl, ⟨_, rfl⟩⟩
-  | get k => exact ⟨(s1, s2, s3), _, rfl, ⟨g1, g2, g3⟩, rfl, by simp [Spec.admits, abs, get_eq h k i1.1]⟩
-  | min => exact ⟨(s1, s2, s3), _, rfl, ⟨g1, g2, g3⟩, rfl, by simp [Spec.admits, abs, minKV_eq]⟩
-  | max => exact ⟨(s1, s2, s3), _, rfl, ⟨g1, g2, g3⟩, rfl, by simp [Spec.admits, abs, maxKV_eq]⟩
-  | floor k => exact ⟨(s1, s2, s3), _, rfl, ⟨g1, g2, g3⟩, rfl, by simp [Spec.admits, abs, floor_eq h k i1.1]⟩
-  | ceiling k => exact ⟨(s1, s2, s3), _, rfl, ⟨g1, g2, g3⟩, rfl, by simp [Spec.admits, abs, ceiling_eq h k i1.1]⟩
+    exact ⟨_, _, rfl, ⟨⟨h, g1⟩, ⟨h2, g2⟩, ⟨h3, g3⟩⟩, rfl, by simp [Spec.admits, abs, absT, isNil_iff_toList]⟩
+  | height => exact ⟨_, _, rfl, ⟨⟨h, g1⟩, ⟨h2, g2⟩, ⟨h3, g3⟩⟩, rfl, ⟨_, rfl⟩⟩
+  | get k => exact ⟨_, _, rfl, ⟨⟨h, g1⟩, ⟨h2, g2⟩, ⟨h3, g3⟩⟩, rfl, by simp [Spec.admits, abs, absT, get_eq h k i1.1]⟩
+  | min => exact ⟨_, _, rfl, ⟨⟨h, g1⟩, ⟨h2, g2⟩, ⟨h3, g3⟩⟩, rfl, by simp [Spec.admits, abs, absT, minKV_eq]⟩
+  | max => exact ⟨_, _, rfl, ⟨⟨h, g1⟩, ⟨h2, g2⟩, ⟨h3, g3⟩⟩, rfl, by simp [Spec.admits, abs, absT, maxKV_eq]⟩
+  | floor k => exact ⟨_, _, rfl, ⟨⟨h, g1⟩, ⟨h2, g2⟩, ⟨h3, g3⟩⟩, rfl, by simp [Spec.admits, abs, absT, floor_eq h k i1.1]⟩
+  | ceiling k =>
+    exact ⟨_, _, rfl, ⟨⟨h, g1⟩, ⟨h2, g2⟩, ⟨h3, g3⟩⟩, rfl, by simp [Spec.admits, abs, absT, ceiling_eq h k i1.1]⟩
   | select i =>
-    exact ⟨(s1, s2, s3), .optKV (Spec.select s1.toList i), by simp [step, select_eq i1.2], ⟨g1, g2, g3⟩, rfl, rfl⟩
-  | rank k => exact ⟨(s1, s2, s3), _, rfl, ⟨g1, g2, g3⟩, rfl, by simp [Spec.admits, abs, rank_eq h k i1]⟩
+    exact ⟨(⟨c1, q1, s1⟩, ⟨c2, q2, s2⟩, ⟨c3, q3, s3⟩), .optKV (Spec.select s1.toList i), by simp [step, select_eq i1.2],
+      ⟨⟨h, g1⟩, ⟨h2, g2⟩, ⟨h3, g3⟩⟩, rfl, rfl⟩
+  | rank k => exact ⟨_, _, rfl, ⟨⟨h, g1⟩, ⟨h2, g2⟩, ⟨h3, g3⟩⟩, rfl, by simp [Spec.admits, abs, absT, rank_eq h k i1]⟩
   | range lo hi =>
-    exact ⟨(s1, s2, s3), _, rfl, ⟨g1, g2, g3⟩, rfl, by simp [Spec.admits, abs, range_eq h lo hi i1.1]⟩
+    exact ⟨_, _, rfl, ⟨⟨h, g1⟩, ⟨h2, g2⟩, ⟨h3, g3⟩⟩, rfl, by simp [Spec.admits, abs, absT, range_eq h lo hi i1.1]⟩
   | rangeSize lo hi =>
-    refine ⟨(s1, s2, s3), _, rfl, ⟨g1, g2, g3⟩, rfl, ?_⟩
-    simp only [Spec.admits, abs, rangeSize, get_eq h _ i1.1, rank_eq h _ i1]
+    refine ⟨_, _, rfl, ⟨⟨h, g1⟩, ⟨h2, g2⟩, ⟨h3, g3⟩⟩, rfl, ?_⟩
+    simp only [Spec.admits, abs, absT, rangeSize, get_eq h _ i1.1, rank_eq h _ i1]
     rw [← rangeSize_spec h lo hi i1.1]
-  | all => exact ⟨(s1, s2, s3), _, rfl, ⟨g1, g2, g3⟩, rfl, by simp [Spec.admits, abs, all_eq]⟩
+  | all => exact ⟨_, _, rfl, ⟨⟨h, g1⟩, ⟨h2, g2⟩, ⟨h3, g3⟩⟩, rfl, by simp [Spec.admits, abs, absT, all_eq]⟩
   | allUntil limit =>
-    exact ⟨(s1, s2, s3), _, rfl, ⟨g1, g2, g3⟩, rfl, by simp [Spec.admits, abs, allUntil_eq]⟩
-  | equalOther => exact ⟨(s1, s2, s3), _, rfl, ⟨g1, g2, g3⟩, rfl, rfl⟩
+    exact ⟨_, _, rfl, ⟨⟨h, g1⟩, ⟨h2, g2⟩, ⟨h3, g3⟩⟩, rfl, by simp [Spec.admits, abs, absT, allUntil_eq]⟩
+  | equalOther => exact ⟨_, _, rfl, ⟨⟨h, g1⟩, ⟨h2, g2⟩, ⟨h3, g3⟩⟩, rfl, rfl⟩
   | traverse o limit =>
-    refine ⟨(s1, s2, s3), _, rfl, ⟨g1, g2, g3⟩, rfl, ?_⟩
+    refine ⟨_, _, rfl, ⟨⟨h, g1⟩, ⟨h2, g2⟩, ⟨h3, g3⟩⟩, rfl, ?_⟩
     cases o
-    case other => simp [Spec.admits, abs, traverseCollect_other]
-    case lvr => simp [Spec.admits, abs, traverseCollect_eq .lvr (by decide), listing_lvr]
-    case ascending => simp [Spec.admits, abs, traverseCollect_eq .ascending (by decide), listing_ascending]
-    case rvl => simp [Spec.admits, abs, traverseCollect_eq .rvl (by decide), listing_rvl]
-    case descending => simp [Spec.admits, abs, traverseCollect_eq .descending (by decide), listing_descending]
+    case other => simp [Spec.admits, traverseCollect_other]
+    case lvr => simp [Spec.admits, abs, absT, traverseCollect_eq .lvr (by decide), listing_lvr]
+    case ascending => simp [Spec.admits, abs, absT, traverseCollect_eq .ascending (by decide), listing_ascending]
+    case rvl => simp [Spec.admits, abs, absT, traverseCollect_eq .rvl (by decide), listing_rvl]
+    case descending => simp [Spec.admits, abs, absT, traverseCollect_eq .descending (by decide), listing_descending]
     case vlr =>
       exact ⟨_, listing_perm .vlr (by decide) s1, by rw [traverseCollect_eq .vlr (by decide)]⟩
     case vrl =>
@@ -167,36 +192,49 @@ theorem step_ok (hk : KindOK kind cmp Good) (h : LawfulCmp cmp) (eqVal : V → V
     case rlv =>
       exact ⟨_, listing_perm .rlv (by decide) s1, by rw [traverseCollect_eq .rlv (by decide)]⟩
   | equal =>
-    exact ⟨(s1, s2, s3), _, rfl, ⟨g1, g2, g3⟩, rfl, by simp [Spec.admits, abs, equal_eq cmp h eqVal i1.1 i2.1]⟩
-  | anyMatch p => exact ⟨(s1, s2, s3), _, rfl, ⟨g1, g2, g3⟩, rfl, by simp [Spec.admits, abs, anyMatch_eq]⟩
-  | allMatch p => exact ⟨(s1, s2, s3), _, rfl, ⟨g1, g2, g3⟩, rfl, by simp [Spec.admits, abs, allMatch_eq]⟩
+    exact ⟨_, _, rfl, ⟨⟨h, g1⟩, ⟨h2, g2⟩, ⟨h3, g3⟩⟩, rfl,
+      by simp [Spec.admits, abs, absT, equal_eq c1 c2 h h2 q1 i1.1 i2.1]⟩
+  | equalSelf =>
+    exact ⟨_, _, rfl, ⟨⟨h, g1⟩, ⟨h2, g2⟩, ⟨h3, g3⟩⟩, rfl,
+      by simp [Spec.admits, abs, absT, equal_eq c1 c1 h h q1 i1.1 i1.1]⟩
+  | anyMatch p => exact ⟨_, _, rfl, ⟨⟨h, g1⟩, ⟨h2, g2⟩, ⟨h3, g3⟩⟩, rfl, by simp [Spec.admits, abs, absT, anyMatch_eq]⟩
+  | allMatch p => exact ⟨_, _, rfl, ⟨⟨h, g1⟩, ⟨h2, g2⟩, ⟨h3, g3⟩⟩, rfl, by simp [Spec.admits, abs, absT, allMatch_eq]⟩
   | firstMatch p =>
-    refine ⟨(s1, s2, s3), _, rfl, ⟨g1, g2, g3⟩, rfl, ?_⟩
-    simp only [Spec.admits, abs]
+    refine ⟨_, _, rfl, ⟨⟨h, g1⟩, ⟨h2, g2⟩, ⟨h3, g3⟩⟩, rfl, ?_⟩
+    simp only [Spec.admits, abs, absT]
     rcases firstMatch_admits p s1 with ⟨e, hall⟩ | ⟨x, hx, hp, e⟩
     · left; exact ⟨by rw [e], hall⟩
     · right; exact ⟨x, hx, hp, by rw [e]⟩
   | selectMatch p =>
-    obtain ⟨m, e, g, l⟩ := selectMatch_ok hk h p s1 g1
-    exact ⟨(s1, m, s3), .list (all m), by simp [step, e], ⟨g1, g, g3⟩, by simp [abs, Spec.next, l],
-      by simp [Spec.admits, abs, all_eq, l]⟩
+    obtain ⟨m, e, g, l⟩ := selectMatch_ok hk1 h p s1 g1
+    exact ⟨(⟨c1, q1, s1⟩, ⟨c1, q1, m⟩, ⟨c3, q3, s3⟩), .list (all m), by simp [step, Table.set, e],
+      ⟨⟨h, g1⟩, ⟨h, g⟩, ⟨h3, g3⟩⟩, by simp [abs, absT, Spec.next, Spec.Tab.set, l],
+      by simp [Spec.admits, abs, absT, all_eq, l]⟩
   | partitionMatch p =>
-    obtain ⟨m, u, e, gm, gu, lm, lu⟩ := partitionMatch_ok hk h p s1 g1
-    exact ⟨(s1, m, u), .list2 (all m) (all u), by simp [step, e], ⟨g1, gm, gu⟩, by simp [abs, Spec.next, lm, lu],
-      by simp [Spec.admits, abs, all_eq, lm, lu]⟩
+    obtain ⟨m, u, e, gm, gu, lm, lu⟩ := partitionMatch_ok hk1 h p s1 g1
+    exact ⟨(⟨c1, q1, s1⟩, ⟨c1, q1, m⟩, ⟨c1, q1, u⟩), .list2 (all m) (all u), by simp [step, Table.set, e],
+      ⟨⟨h, g1⟩, ⟨h, gm⟩, ⟨h, gu⟩⟩, by simp [abs, absT, Spec.next, Spec.Tab.set, lm, lu],
+      by simp [Spec.admits, abs, absT, all_eq, lm, lu]⟩
 
 /-- whole histories -/
-theorem runFrom_ok (hk : KindOK kind cmp Good) (h : LawfulCmp cmp) (eqVal : V → V → Bool) :
-    ∀ (ops : List (Op K V)) (s : State K V), (Good s.1 ∧ Good s.2.1 ∧ Good s.2.2) →
-      ∃ s' outs, runFrom kind cmp eqVal s ops = .ok (s', outs) ∧ (Good s'.1 ∧ Good s'.2.1 ∧ Good s'.2.2) ∧
-        Spec.accepts cmp eqVal (abs s) ops outs
+theorem runFrom_ok (hk : ∀ cmp : K → K → Int, LawfulCmp cmp → KindOK kind cmp (Good cmp)) :
+    ∀ (ops : List (Op K V)) (s : State K V), GoodS Good s →
+      ∃ s' outs, runFrom kind s ops = .ok (s', outs) ∧ GoodS Good s' ∧ Spec.accepts (abs s) ops outs
   | [], s, hs => ⟨s, [], rfl, hs, trivial⟩
   | op :: ops, s, hs => by
-    obtain ⟨s1, o, e1, g1, a1, ad1⟩ := step_ok hk h eqVal s hs op
-    obtain ⟨s2, outs, e2, g2, acc⟩ := runFrom_ok hk h eqVal ops s1 g1
+    obtain ⟨s1, o, e1, g1, a1, ad1⟩ := step_ok hk s hs op
+    obtain ⟨s2, outs, e2, g2, acc⟩ := runFrom_ok hk ops s1 g1
     refine ⟨s2, o :: outs, ?_, g2, ?_⟩
     · simp [runFrom, e1, e2]
     · exact ⟨ad1, by rw [← a1]; exact acc⟩
+
+/-- three fresh tables, each constructed with its own lawful comparator (and any value equality), are a good
+state whose abstraction is three empty abstract tables with the same parameters -/
+theorem goodS_new (hk : ∀ cmp : K → K → Int, LawfulCmp cmp → KindOK kind cmp (Good cmp))
+    {cmpA cmpB cmpC : K → K → Int} (hA : LawfulCmp cmpA) (hB : LawfulCmp cmpB) (hC : LawfulCmp cmpC)
+    (eqA eqB eqC : V → V → Bool) :
+    GoodS Good (Table.new cmpA eqA, Table.new cmpB eqB, Table.new cmpC eqC) :=
+  ⟨⟨hA, (hk cmpA hA).good_nil⟩, ⟨hB, (hk cmpB hB).good_nil⟩, ⟨hC, (hk cmpC hC).good_nil⟩⟩
 
 end
 end AlgoVerif.C01
